@@ -12,6 +12,20 @@ from ginverif import core
 _COUNTER = [0]
 
 
+class _EqCallable:
+  """A callable whose instances all compare equal."""
+  __name__ = 'eq_callable'
+
+  def __call__(self, a=1):
+    return a
+
+  def __eq__(self, other):
+    return isinstance(other, _EqCallable)
+
+  def __hash__(self):
+    return 17
+
+
 class RegWorld:
 
   def __init__(self):
@@ -37,6 +51,11 @@ class RegWorld:
     sys.modules[mod.__name__] = mod
     self.mod = mod
     self.objs = {'f': mod.f, 'g': mod.g, 'K': mod.K, 'meth': mod.K.meth}
+    self.eq_callables = _COUNTER[0] % 3 == 0
+    if self.eq_callables:
+      # every third world: f and g are distinct callables that compare (and hash) equal, like two instances of a
+      # frozen dataclass with __call__ - "a different object" is about identity, not equality
+      self.objs['f'], self.objs['g'] = _EqCallable(), _EqCallable()
 
   def close(self):
     config = self.config
@@ -67,6 +86,8 @@ class RegWorld:
     elif q['unknownListName']:
       kw.update(**({'allowlist': ['nope']} if self.step % 2 else {'denylist': ['nope']}))
     obj = self.objs[q['obj']]
+    if self.eq_callables and api == 'configurable' and not inspect.isclass(obj) and not inspect.isfunction(obj):
+      api = 'external'          # gin.configurable is a decorator for one's own functions / classes
     try:
       if api == 'configurable':
         if inspect.isclass(obj):
@@ -156,6 +177,18 @@ def _mk_shapes():
       """doc of kw_fn"""
       return (args, b, kw)
     return kw_fn
+
+  def decorated():
+    import functools
+
+    def inner_fn(a, b=2):
+      """doc of inner_fn"""
+      return (a, b)
+
+    @functools.wraps(inner_fn)
+    def passthrough(*args, **kwargs):        # somebody else's decorator, applied before the function is registered
+      return inner_fn(*args, **kwargs)
+    return passthrough
 
   class CallableObj:
     """doc of callable object"""
@@ -289,6 +322,7 @@ def _mk_shapes():
       'class-with-foreign-registered-attribute': ('class', cls_with_foreign_attr),
       'plain-function': ('function', plain),
       'varargs-kwonly-function': ('function', kwonly),
+      'decorated-function': ('function', decorated),
       'builtin': ('function', lambda: sorted),
       'callable-object': ('function', lambda: CallableObj()),
       'class-init': ('class', cls_init),
